@@ -233,6 +233,8 @@ func (cw *CountingWindow) sendResult(data []types.Row) {
 		// Try to drop oldest data to make room for new data
 		select {
 		case <-cw.outputChan:
+			// the displaced result is lost: it counts as dropped
+			atomic.AddInt64(&cw.droppedCount, 1)
 			// Successfully dropped one old item
 			select {
 			case cw.outputChan <- data:
